@@ -419,12 +419,18 @@ def r04_5(ctx):
             return float(self.a)
     for cls in ("ConnectedShape", "DisjointShape"):
         f2 = ctx.fn(f"shape.{cls}.__float__")
-        S = Obj("S", subshapes=(Sub(2), Sub(-3), Sub(5.5)))
+        subs = (Sub(2), Sub(-3), Sub(5.5))
+        # the boundary curves exist too: float(curve) is a signed *length* (here 7, -11, 13), not an area
+        curves = tuple(Sub(v) for v in (7, -11, 13))
+        for sb, cv in zip(subs, curves):
+            sb.jordans = (cv,)
+        S = Obj("S", subshapes=subs, jordans=curves)
         try:
             got = Runner(ctx, set(), None).call_fn(f2, [S])
             ok = got == 4.5
             (out.ok if ok else out.bad)(f2.qname, "sum of float(subshape) over every subshape" if ok else
-                                        f"float() of subshapes 2, -3, 5.5 gives {got}", where=f2.where())
+                                        f"float() of subshapes of areas 2, -3, 5.5 (boundary lengths 7, -11, 13) gives {got}",
+                                        where=f2.where())
         except (Undecided, Raised) as ex:
             out.undecided(f2.qname, str(ex), where=f2.where())
     for cls, want in (("EmptyShape", 0.0), ("WholeShape", float("inf"))):
